@@ -192,8 +192,20 @@ def add_noise(draw, spec, mode):
 @st.composite
 def run_case(draw, strategies=('ddmin', 'hierarchical', 'hybrid'), jobs=(1, 2, 4),
              formats=('default', 'pretty', 'wrap'), with_cc=True, with_delay=True,
-             comparisons=True, max_asserts=6, kinds=None, mutator_subsets=False):
-    text = draw(script(1, max_asserts))
+             comparisons=True, max_asserts=6, kinds=None, mutator_subsets=False, mixed_inputs=False):
+    src = draw(st.sampled_from(['script', 'script', 'typed', 'lexical'])) if mixed_inputs else 'script'
+    if src == 'typed':
+        from . import gen_typed
+        ts = draw(gen_typed.script(dict(depth=2, max_asserts=min(3, max_asserts), trap_names=True)))
+        text = model.render_list(ts.cmds) + '\n'
+    elif src == 'lexical':
+        # a script with non-standard layout: comments, CRLF, tabs, long and quoted tokens
+        from . import gen_lex
+        base = draw(script(1, min(3, max_asserts)))
+        extra, _, _ = gen_lex.render(draw(gen_lex.top(max_items=3, max_leaves=8, top_atoms=False)))
+        text = base.replace('\n', draw(st.sampled_from(['\n', '\r\n', '\n\t', ' \n']))) + extra + '\n'
+    else:
+        text = draw(script(1, max_asserts))
     sp = draw(spec_for(text, kind=draw(st.sampled_from(kinds)) if kinds else None, with_delay=with_delay))
     opts = dict(strategy=draw(st.sampled_from(strategies)), jobs=draw(st.sampled_from(jobs)), timeout=30)
     fmt = draw(st.sampled_from(formats))
@@ -229,7 +241,7 @@ def run_case(draw, strategies=('ddmin', 'hierarchical', 'hybrid'), jobs=(1, 2, 4
             opts['match_out_cc'] = 'cc-ok'
     if mutator_subsets:
         opts['extra_argv'] = draw(mutator_options())
-    return dict(text=text, spec=sp, spec_cc=spec_cc, opts=opts, mode=mode, fmt=fmt)
+    return dict(text=text, spec=sp, spec_cc=spec_cc, opts=opts, mode=mode, fmt=fmt, source=src)
 
 
 GROUPS = ['core', 'arithmetic', 'bv', 'boolean', 'datatypes', 'fp', 'smtlib', 'strings']
